@@ -15,6 +15,7 @@ import (
 	"github.com/goreleaser/nfpm/v2"
 	"github.com/goreleaser/nfpm/v2/files"
 
+	"verifharness/internal/dec"
 	"verifharness/internal/ev"
 	"verifharness/internal/gen"
 )
@@ -517,6 +518,32 @@ func c05(run *ev.Run, tier string) {
 					for p, e := range got {
 						if plan[p] == nil && !(f == "rpm" && e.Type == files.TypeImplicitDir) {
 							run.Violate("C05/generated/entry-not-addressed", map[string]any{"case": i, "format": f, "path": p, "type": e.Type})
+						}
+					}
+					// the payload of the package built from the same list holds exactly the plan
+					if i%3 == 0 {
+						if res := buildYAML(y, f); res.Err == nil && res.Panic == "" {
+							pk := dec.Decode(f, res.Bytes, false)
+							shipped := map[string]bool{}
+							for _, e := range pk.Entries {
+								shipped[e.Path] = true
+							}
+							for p, e := range got {
+								if f == "rpm" && e.Type == files.TypeImplicitDir {
+									continue
+								}
+								if e.Type == files.TypeRPMGhost && f != "rpm" {
+									continue
+								}
+								if !shipped[p] && p != "" {
+									run.Violate("C05/generated/planned-entry-not-in-package/"+ev.KeyPart(e.Type), map[string]any{"case": i, "format": f, "path": p})
+								}
+							}
+							for p := range shipped {
+								if got[p] == nil && !(f == "deb" && strings.HasSuffix(p, "changelog.Debian.gz")) && p != "/" {
+									run.Violate("C05/generated/package-entry-not-in-plan", map[string]any{"case": i, "format": f, "path": p})
+								}
+							}
 						}
 					}
 				} else if ps != first {
